@@ -25,6 +25,9 @@
 // trailing bytes; res.CrossHashes == [sha256(0x00 ++ value)]; the makeProof notification names that key.
 // Every other tx (votes below quorum, rejected, replayed, invalid): no key under "request" in the write set,
 // no cross hash.
+// Environment: both parts run under config.DefConfig.Common.EnableEventLog ∈ {true,false} (node flag
+// --disable-event-log); per transaction (ok, write set, cross hashes) must be identical under both settings,
+// only the notification list may differ.
 package main
 
 import (
@@ -172,6 +175,24 @@ func build(a ccm.Adapter, d mdesc, idx int, twin bool) []byte {
 
 var reqPrefix = ccm.RequestPrefix()
 
+// eventLog mirrors config.DefConfig.Common.EnableEventLog of the current pass.
+var eventLog = true
+
+// resultDigest covers everything of a tx outcome that enters consensus: success, write set, cross hashes.
+func resultDigest(res polyenv.Result) [32]byte {
+	h := sha256.New()
+	fmt.Fprintf(h, "%v|%d|", res.OK, len(res.CrossHashes))
+	for _, c := range res.CrossHashes {
+		h.Write(c[:])
+	}
+	for _, kv := range res.WriteSet {
+		fmt.Fprintf(h, "%d:%s=%d:%s;", len(kv.K), kv.K, len(kv.V), kv.V)
+	}
+	var o [32]byte
+	copy(o[:], h.Sum(nil))
+	return o
+}
+
 func reqKeysIn(ws polyenv.Dump) []polyenv.KV {
 	var o []polyenv.KV
 	for _, kv := range ws {
@@ -226,7 +247,7 @@ func checkAccepting(r *ev.Run, name string, tx *types.Transaction, res polyenv.R
 			}
 		}
 	}
-	if found != 1 {
+	if (eventLog && found != 1) || (!eventLog && found != 0) {
 		r.Violation("C22/"+name+"/makeProof-notification-count", det)
 	}
 }
@@ -255,139 +276,171 @@ func main() {
 	covered := []string{}
 	var execs int64
 	var mu sync.Mutex
-	for _, a := range ccm.Adapters() {
-		a := a
-		covered = append(covered, a.Name())
-		msgs, alt := map[uint64][][]byte{}, map[uint64][][]byte{}
-		for _, c := range []uint64{S1, S2} {
-			for i, d := range alpha {
-				msgs[c] = append(msgs[c], build(a, d, i, false))
-				alt[c] = append(alt[c], build(a, d, i, true))
+	// The node-local switch --disable-event-log (config.DefConfig.Common.EnableEventLog) is an environment answer
+	// owned by the harness: the whole space runs under both settings, the oracle is evaluated under each, and the
+	// consensus-relevant outcome of every single transaction (ok flag, write set, cross hashes) must be identical.
+	digests := map[string][32]byte{}
+	for _, evlog := range []bool{true, false} {
+		evlog := evlog
+		config.DefConfig.Common.EnableEventLog = evlog
+		eventLog = evlog
+		for _, a := range ccm.Adapters() {
+			a := a
+			if evlog {
+				covered = append(covered, a.Name())
 			}
-		}
-		w := polyenv.NewWorld()
-		w.Genesis(vals)
-		ccm.Register(w, vals, ccm.SC{ID: D1, Router: utils.VOTE_ROUTER, Wait: 1, Name: "d1", CCMC: []byte{1}}, -1, H0)
-		ccm.Register(w, vals, ccm.SC{ID: D2, Router: utils.HSC_ROUTER, Wait: 1, Name: "d2", CCMC: ccm.HscCCMC(D2)}, -1, H0)
-		ccm.Register(w, vals, ccm.SC{ID: DB, Router: utils.VOTE_ROUTER, Wait: 1, Name: "db", CCMC: []byte{3}}, -1, H0)
-		if res := w.Exec(ccm.BlackTx(DB, false, 1, polyenv.Multi(vals)), H0, 1000); !res.OK {
-			r.HarnessError("BlackChain seed failed: %v", res.Err)
-		}
-		a.Seed(w, vals, []uint64{S1, S2}, msgs, alt, H0)
-		base := w.Dump()
-		w.Close()
-		pool := ccm.NewWorlds(16)
-		type job struct {
-			c uint64
-			i int
-		}
-		jobs := make(chan job, 64)
-		var wg sync.WaitGroup
-		for k := 0; k < 16; k++ {
-			wg.Add(1)
-			go func() {
-				defer wg.Done()
-				for j := range jobs {
-					if r.Expired() {
-						r.Capped("deadline: alphabet not completed for router " + a.Name())
-						continue
-					}
-					d := alpha[j.i]
-					pool.With(base, func(w *ccm.W) {
-						n := 0
-						run := func(kind string, sub ccm.Sub, extra []byte, mayAccept bool) {
-							released := 0
-							lastErr := ""
-							for ti, tx := range sub.Txs {
-								res := w.Exec(tx, H0, 1000)
-								lastErr = fmt.Sprint(res.Err)
-								r.Eval()
-								n++
-								det := map[string]any{"router": a.Name(), "source": j.c, "message": d.String(), "submission": kind, "tx_index": ti,
-									"tx_ok": res.OK, "tx_err": fmt.Sprint(res.Err), "extra": hex.EncodeToString(extra)}
-								acc := res.OK && (len(res.CrossHashes) > 0 || len(reqKeysIn(res.WriteSet)) > 0)
-								if acc {
-									released++
-									if !mayAccept || released > 1 {
-										r.Violation("C22/"+a.Name()+"/"+kind+"-submission-committed-a-request", det)
+			msgs, alt := map[uint64][][]byte{}, map[uint64][][]byte{}
+			for _, c := range []uint64{S1, S2} {
+				for i, d := range alpha {
+					msgs[c] = append(msgs[c], build(a, d, i, false))
+					alt[c] = append(alt[c], build(a, d, i, true))
+				}
+			}
+			w := polyenv.NewWorld()
+			w.Genesis(vals)
+			ccm.Register(w, vals, ccm.SC{ID: D1, Router: utils.VOTE_ROUTER, Wait: 1, Name: "d1", CCMC: []byte{1}}, -1, H0)
+			ccm.Register(w, vals, ccm.SC{ID: D2, Router: utils.HSC_ROUTER, Wait: 1, Name: "d2", CCMC: ccm.HscCCMC(D2)}, -1, H0)
+			ccm.Register(w, vals, ccm.SC{ID: DB, Router: utils.VOTE_ROUTER, Wait: 1, Name: "db", CCMC: []byte{3}}, -1, H0)
+			if res := w.Exec(ccm.BlackTx(DB, false, 1, polyenv.Multi(vals)), H0, 1000); !res.OK {
+				r.HarnessError("BlackChain seed failed: %v", res.Err)
+			}
+			a.Seed(w, vals, []uint64{S1, S2}, msgs, alt, H0)
+			base := w.Dump()
+			w.Close()
+			bd := sha256.Sum256([]byte(base.String()))
+			if prev, ok := digests["base/"+a.Name()]; ok && prev != bd {
+				r.Violation("C22/"+a.Name()+"/seeded-state-depends-on-event-log-switch", map[string]any{"router": a.Name()})
+			}
+			digests["base/"+a.Name()] = bd
+			pool := ccm.NewWorlds(16)
+			type job struct {
+				c uint64
+				i int
+			}
+			jobs := make(chan job, 64)
+			var wg sync.WaitGroup
+			for k := 0; k < 16; k++ {
+				wg.Add(1)
+				go func() {
+					defer wg.Done()
+					for j := range jobs {
+						if r.Expired() {
+							r.Capped("deadline: alphabet not completed for router " + a.Name())
+							continue
+						}
+						d := alpha[j.i]
+						pool.With(base, func(w *ccm.W) {
+							n := 0
+							run := func(kind string, sub ccm.Sub, extra []byte, mayAccept bool) {
+								released := 0
+								lastErr := ""
+								for ti, tx := range sub.Txs {
+									res := w.Exec(tx, H0, 1000)
+									lastErr = fmt.Sprint(res.Err)
+									dk := fmt.Sprintf("%s/%d/%d/%d", a.Name(), j.c, j.i, n)
+									dg := resultDigest(res)
+									mu.Lock()
+									if prev, ok := digests[dk]; ok && prev != dg {
+										r.Violation("C22/"+a.Name()+"/result-depends-on-event-log-switch", map[string]any{"router": a.Name(), "source": j.c,
+											"message": d.String(), "submission": kind, "tx_index": ti, "event_log": evlog, "tx_ok": res.OK, "cross_hashes": len(res.CrossHashes),
+											"write_set_keys": len(res.WriteSet)})
+									}
+									digests[dk] = dg
+									mu.Unlock()
+									r.Eval()
+									n++
+									det := map[string]any{"router": a.Name(), "source": j.c, "message": d.String(), "submission": kind, "tx_index": ti,
+										"tx_ok": res.OK, "tx_err": fmt.Sprint(res.Err), "extra": hex.EncodeToString(extra)}
+									acc := res.OK && (len(res.CrossHashes) > 0 || len(reqKeysIn(res.WriteSet)) > 0)
+									if acc {
+										released++
+										if !mayAccept || released > 1 {
+											r.Violation("C22/"+a.Name()+"/"+kind+"-submission-committed-a-request", det)
+											continue
+										}
+										checkAccepting(r, a.Name(), tx, res, j.c, a.Verified(j.c, extra), det)
+										r.Class("accepted")
+										r.Case(a.Name() + "/accepted/" + d.String())
+										if j.i%97 == 0 {
+											r.Sample(det)
+										}
 										continue
 									}
-									checkAccepting(r, a.Name(), tx, res, j.c, a.Verified(j.c, extra), det)
-									r.Class("accepted")
-									r.Case(a.Name() + "/accepted/" + d.String())
-									if j.i%97 == 0 {
-										r.Sample(det)
+									if len(res.CrossHashes) != 0 || len(reqKeysIn(res.WriteSet)) != 0 {
+										r.Violation("C22/"+a.Name()+"/non-accepting-tx-committed-request-or-leaf", det)
 									}
-									continue
+									if !res.OK && len(res.WriteSet) != 0 {
+										r.Violation("C22/"+a.Name()+"/failed-tx-has-write-set", det)
+									}
+									if res.OK {
+										r.Class("vote-below-quorum")
+									}
 								}
-								if len(res.CrossHashes) != 0 || len(reqKeysIn(res.WriteSet)) != 0 {
-									r.Violation("C22/"+a.Name()+"/non-accepting-tx-committed-request-or-leaf", det)
+								det := map[string]any{"router": a.Name(), "source": j.c, "message": d.String(), "submission": kind, "last_tx_err": lastErr}
+								if mayAccept && released != 1 {
+									r.Violation("C22/"+a.Name()+"/valid-import-to-registered-destination-not-accepted", det)
 								}
-								if !res.OK && len(res.WriteSet) != 0 {
-									r.Violation("C22/"+a.Name()+"/failed-tx-has-write-set", det)
-								}
-								if res.OK {
-									r.Class("vote-below-quorum")
-								}
-							}
-							det := map[string]any{"router": a.Name(), "source": j.c, "message": d.String(), "submission": kind, "last_tx_err": lastErr}
-							if mayAccept && released != 1 {
-								r.Violation("C22/"+a.Name()+"/valid-import-to-registered-destination-not-accepted", det)
-							}
-							if !mayAccept {
-								switch {
-								case kind == "replay":
-									r.Class("rejected:replay")
-								case kind == "bad":
-									r.Class("rejected:invalid-authentication")
-								case d.to == DB:
-									r.Class("rejected:blacklisted-destination")
-									r.Case(a.Name() + "/rejected-black/" + d.String())
-								case d.to == DU:
-									r.Class("rejected:unregistered-destination")
-									r.Case(a.Name() + "/rejected-unreg/" + d.String())
+								if !mayAccept {
+									switch {
+									case kind == "replay":
+										r.Class("rejected:replay")
+									case kind == "bad":
+										r.Class("rejected:invalid-authentication")
+									case d.to == DB:
+										r.Class("rejected:blacklisted-destination")
+										r.Case(a.Name() + "/rejected-black/" + d.String())
+									case d.to == DU:
+										r.Class("rejected:unregistered-destination")
+										r.Case(a.Name() + "/rejected-unreg/" + d.String())
+									}
 								}
 							}
-						}
-						open := d.to == D1 || d.to == D2
-						if j.i%7 == 3 { // invalid authentication first: must commit nothing and must not block the valid one
-							run("bad", a.Submit(j.c, j.i, ccm.VBad, 0, 3), msgs[j.c][j.i], false)
-						}
-						run("first", a.Submit(j.c, j.i, ccm.VSame, 0, 1), msgs[j.c][j.i], open)
-						if open {
-							run("replay", a.Submit(j.c, j.i, ccm.VSame, 1, 2), msgs[j.c][j.i], false)
-							run("replay", a.Submit(j.c, j.i, ccm.VAltMsg, 0, 4), alt[j.c][j.i], false)
-						}
-						mu.Lock()
-						execs += int64(n)
-						mu.Unlock()
-					})
-				}
-			}()
-		}
-		for _, c := range srcs {
-			for i := range alpha {
-				jobs <- job{c, i}
+							open := d.to == D1 || d.to == D2
+							if j.i%7 == 3 { // invalid authentication first: must commit nothing and must not block the valid one
+								run("bad", a.Submit(j.c, j.i, ccm.VBad, 0, 3), msgs[j.c][j.i], false)
+							}
+							run("first", a.Submit(j.c, j.i, ccm.VSame, 0, 1), msgs[j.c][j.i], open)
+							if open {
+								run("replay", a.Submit(j.c, j.i, ccm.VSame, 1, 2), msgs[j.c][j.i], false)
+								run("replay", a.Submit(j.c, j.i, ccm.VAltMsg, 0, 4), alt[j.c][j.i], false)
+							}
+							mu.Lock()
+							execs += int64(n)
+							mu.Unlock()
+						})
+					}
+				}()
 			}
+			for _, c := range srcs {
+				for i := range alpha {
+					jobs <- job{c, i}
+				}
+			}
+			close(jobs)
+			wg.Wait()
 		}
-		close(jobs)
-		wg.Wait()
 	}
-	ledgerPart(r, vals)
+	for _, evlog := range []bool{true, false} {
+		ledgerPart(r, vals, evlog)
+	}
+	config.DefConfig.Common.EnableEventLog = true
+	r.Note("event_log_settings", []bool{true, false})
 	r.Note("routers_covered", covered)
 	r.Note("routers_not_covered", ccm.RoutersWithoutAdapter())
 	r.Assume("BTC and Ripple destinations are not account-based and are excluded by the statement",
 		"ripple source: the verified message is the submitted one with to-contract := bound lock proxy and args := asset ++ destination ++ amount(32 bytes), recomputed independently in lib/ccm")
 	r.Finish(map[string]any{
 		"rule":              "accepting tx: exactly one request record keyed (destination, relay tx hash) with content (relay tx hash, source chain, verified message) and CrossHashes == [leaf(content)]; every other tx commits neither",
-		"alphabet_messages": len(alpha), "source_chains": len(srcs), "states": len(alpha) * len(srcs) * len(covered),
+		"alphabet_messages": len(alpha), "source_chains": len(srcs), "states": 2 * len(alpha) * len(srcs) * len(covered),
+		"environment": "EnableEventLog in {true,false}: oracle under each, per-tx (ok, write set, cross hashes) identical under both",
 		"transitions": execs, "traces_validated_against_impl": execs,
 	})
 }
 
 // ledgerPart: real ledger, private net (chain id 0), vote router.
-func ledgerPart(r *ev.Run, vals []*polyenv.Acct) {
+func ledgerPart(r *ev.Run, vals []*polyenv.Acct, evlog bool) {
 	polyenv.Setup(0, vals)
+	config.DefConfig.Common.EnableEventLog = evlog
 	dir := polyenv.TmpDir("c22")
 	defer os.RemoveAll(dir)
 	ch, err := polyenv.OpenChain(dir, vals)
